@@ -26,16 +26,23 @@ class WorkflowContext:
     def __init__(self, task: Task):
         """Initialize the workflow helper with its associated task."""
         self.task = task
-        self._deterministic: DeterministicExecutor | None = None
 
     @property
     def deterministic(self) -> DeterministicExecutor:
-        """Get the deterministic executor for this workflow context."""
-        if self._deterministic is None:
-            self._deterministic = DeterministicExecutor(
-                self.task.invocation.workflow, self.task.app
-            )
-        return self._deterministic
+        """
+        Get the deterministic executor of the invocation that is currently running.
+
+        The executor (workflow identity + operation counters) belongs to one execution
+        of the task body: it is kept on the running invocation object, not on the task,
+        so that a retry, a recovery re-run or the same task running for another workflow
+        in the same process starts replaying from the first operation of its own workflow.
+        """
+        invocation = self.task.invocation
+        executor = getattr(invocation, "_deterministic_executor", None)
+        if executor is None:
+            executor = DeterministicExecutor(invocation.workflow, self.task.app)
+            invocation._deterministic_executor = executor  # type: ignore[attr-defined]
+        return executor
 
     @property
     def app(self) -> Pynenc:
